@@ -92,6 +92,7 @@ fn main() {
         "c12" => drivers::derive::run_c12(&mut ctx),
         "c13" => drivers::derive::run_c13(&mut ctx),
         "cache" => drivers::cache::run(&mut ctx),
+        "corner" => drivers::corner::run(&mut ctx),
         "demand" => drivers::cost::run_demand(&mut ctx),
         d => {
             eprintln!("unknown driver {}", d);
